@@ -174,6 +174,50 @@ def run_seq(case, V, hooks, distinct):
             inv = cell.task(n)
             wit_extra = {"serializer": dom, "backend": backend, "threshold": thr}
             read_and_judge(app, inv, expected, V, hooks, "client-before", wit_extra)
+            if rng.random() < 0.12:
+                # superseded execution: runner A starts the invocation, is killed and re-routed; runner B executes it to its real outcome; A's
+                # old execution then finishes the other way round and tries to store ITS outcome (the write lands, the status change is refused).
+                # The final status and what every reader gets must still be B's outcome.
+                from pynenc.invocation.status import InvocationStatus
+                from pynenc.exceptions import InvocationStatusError
+                ctx_a = runner_ctx("ThreadRunner", "superseded-runner")
+                orch = app.orchestrator
+                set_thread_ctx(app, ctx_a)
+                try:
+                    got = list(orch.get_invocations_to_run(1, ctx_a))
+                    if got and got[0].invocation_id == inv.invocation_id:
+                        orch.set_invocation_status(inv.invocation_id, InvocationStatus.RUNNING, ctx_a)
+                        orch.set_invocation_status(inv.invocation_id, InvocationStatus.KILLED, ctx_a)
+                        orch.reroute_invocations({inv.invocation_id}, ctx_a)
+                finally:
+                    clear_thread_ctx(app)
+                set_thread_ctx(app, cell.ctx)
+                try:
+                    for w in list(orch.get_invocations_to_run(1, cell.ctx)):
+                        try:
+                            w.run(cell.ctx)
+                        except Exception:
+                            pass
+                finally:
+                    clear_thread_ctx(app)
+                set_thread_ctx(app, ctx_a)
+                try:
+                    late = app.state_backend.get_invocation(inv.invocation_id)
+                    try:
+                        if kind == "exc":
+                            orch.set_invocation_result(late, "late value of the superseded execution", ctx_a)
+                        else:
+                            orch.set_invocation_exception(late, KeyError("late failure of the superseded execution"), ctx_a)
+                    except InvocationStatusError:
+                        pass
+                finally:
+                    clear_thread_ctx(app)
+                hooks["superseded_executions"] += 1
+                wit_extra["superseded_execution_finished_late"] = True
+                inv._cached_status = None
+                st = read_and_judge(app, inv, expected, V, hooks, "client-after-late-finish-of-superseded-execution", wit_extra)
+                distinct.append(["seq-superseded", dom, backend, kind, st.name])
+                continue
             # fault injection: now and then the write of the result / exception fails (transient storage error, interrupt of the worker, encoding
             # error); whatever happens next, a final status may only be published together with the matching stored outcome
             fault = None
